@@ -78,6 +78,8 @@ enum Edit {
     DeleteDefLine,
     Rejected,
     RejectedOnBreakpointLine,
+    /// a new line that brings DATA (the only DATA, for the programs that have none)
+    AddData,
 }
 
 const PROBES: [&str; 9] = ["CONT", "RETURN", "NEXT I", "READ Z: PRINT Z", "PRINT FNA(1)", "GOTO 10", "PRINT X;S$;A(1)", "LIST", "NEXT K"];
@@ -166,6 +168,7 @@ fn edit_line(p: &Prog, e: &Edit, bp: Option<u64>) -> Option<String> {
         Edit::DeleteBreakpointLine => format!("{}", bp?),
         Edit::DeleteDataLine => format!("{}", p.data_line?),
         Edit::DeleteDefLine => format!("{}", p.def_line?),
+        Edit::AddData => "6 PRINT \"n\";: DATA 77".to_string(),
         Edit::Rejected => "35 PRINT \"".to_string(),
         Edit::RejectedOnBreakpointLine => format!("{} PRINT \"", bp?),
     })
@@ -190,6 +193,7 @@ pub fn run(thorough: bool) -> Report {
         Edit::DeleteDefLine,
         Edit::Rejected,
         Edit::RejectedOnBreakpointLine,
+        Edit::AddData,
     ];
     let mut jobs = vec![];
     let progs = programs();
@@ -307,7 +311,9 @@ pub fn run(thorough: bool) -> Report {
                         "PRINT FNA(1)" => (got != vec!["Print(\"0\\n\")".to_string(), "Idle".to_string()]).then(|| "a previously defined function is still callable".to_string()),
                         "READ Z: PRINT Z" => {
                             let has_data = p.data_line.is_some() && !matches!(e, Edit::DeleteDataLine);
-                            if has_data {
+                            if matches!(e, Edit::AddData) {
+                                (got != vec!["Print(\"77\\n\")".to_string(), "Idle".to_string()]).then(|| "READ did not start from the first DATA item of the edited program".to_string())
+                            } else if has_data {
                                 (got != vec!["Print(\"11\\n\")".to_string(), "Idle".to_string()]).then(|| "READ did not start from the first DATA item".to_string())
                             } else {
                                 (!expect_err("OutOfData")).then(|| "READ did not report OUT OF DATA".to_string())
